@@ -106,21 +106,31 @@ def run(eng, R):
                 n_calls += 1
                 nm = err.id
                 want_cor, want_rel = "_cor" in nm, nm.endswith("_rel")
+                # by keyword, or by position in the helper's own signature
+                callee = wm.functions.get(c.func.id)
+                callee_node = callee.node if callee is not None else next((d for d in ast.walk(f.node) if isinstance(d, ast.FunctionDef) and d.name == c.func.id), None)
+                params = [a.arg for a in callee_node.args.args] if callee_node is not None else []
+                for nm_ in ("correlated", "relative"):
+                    if nm_ not in kws and nm_ in params and len(args) > params.index(nm_):
+                        kws[nm_] = args[params.index(nm_)]
                 got_cor = isinstance(kws.get("correlated"), ast.Constant) and kws["correlated"].value is True
                 got_rel = isinstance(kws.get("relative"), ast.Constant) and kws["relative"].value is True
                 ok = want_cor == got_cor and want_rel == got_rel
                 if fn == "xy_fit":
                     ok = ok and axis == nm[0] and nm[1] == "_"
                 R.ob("S-wrap", "%s:%s" % (fn, nm), ok, (f.file, c.lineno), "%s forwards `%s` with axis=%s correlated=%s relative=%s" % (fn, nm, axis, got_cor, got_rel))
-    for helper_owner, hname in (("module", "_add_error_to_fit_generic"),):
-        f = wm.functions.get(hname)
-        fn_ = eng.cnode(f)
+    xf = wm.functions["xy_fit"]
+    xy_helper = next((d for d in ast.walk(xf.node) if isinstance(d, ast.FunctionDef) and d.name == "_add_error_to_fit"), None)
+    if xy_helper is None:
+        raise AnalysisError("xy_fit: nested helper _add_error_to_fit not found")
+    for label, fn_, recv, off, where_ in (("_add_error_to_fit_generic", eng.cnode(wm.functions.get("_add_error_to_fit_generic")), "fit", 0, wm.functions.get("_add_error_to_fit_generic")),
+                                           ("xy_fit._add_error_to_fit", xy_helper, "_fit", 1, xf)):
         calls = [c for c in ast.walk(fn_) if isinstance(c, ast.Call) and isinstance(c.func, ast.Attribute) and c.func.attr in ("add_error", "add_matrix_error")
-                 and isinstance(c.func.value, ast.Name) and c.func.value.id == "fit"]
+                 and isinstance(c.func.value, ast.Name) and c.func.value.id == recv]
 
-        def lits(c):
+        def lits(c, fn_=fn_):
             from .formulas import canon_cond_text
-            return canon_cond_text(common.guard_conditions(fn_, c))
+            return canon_cond_text(common.guard_conditions(fn_, c, flat=True))
 
         def tx(e):
             return " ".join(ast.unparse(e).split()) if e is not None else None
@@ -132,19 +142,17 @@ def run(eng, R):
         if ok:
             c1, c2, c3 = cor[0], mat[0], plain[0]
             loops = [n for n in ast.walk(fn_) if isinstance(n, ast.For) and any(x is c1 for x in ast.walk(n))]
-            arr = tx(common.kwarg(c2, "err_matrix", 0))
+            arr = tx(common.kwarg(c2, "err_matrix", off))
             ok = tx(common.kwarg(c1, "correlation")) == "1.0" and "(correlated)" in lits(c1) and len(loops) == 1 and isinstance(loops[0].target, ast.Name) \
-                and tx(common.kwarg(c1, "err_val", 0)) == loops[0].target.id and tx(loops[0].iter) == arr \
-                and "not (correlated)" in lits(c2) and "(%s.ndim == 2)" % arr in lits(c2) and tx(common.kwarg(c2, "matrix_type", 1)) == "'cov'" \
-                and "not (correlated)" in lits(c3) and "not (%s.ndim == 2)" % arr in lits(c3) and tx(common.kwarg(c3, "err_val", 0)) == arr \
+                and tx(common.kwarg(c1, "err_val", off)) == loops[0].target.id and tx(loops[0].iter) == arr \
+                and "not (correlated)" in lits(c2) and "(%s.ndim == 2)" % arr in lits(c2) and tx(common.kwarg(c2, "matrix_type", off + 1)) == "'cov'" \
+                and "not (correlated)" in lits(c3) and "not (%s.ndim == 2)" % arr in lits(c3) and tx(common.kwarg(c3, "err_val", off)) == arr \
                 and all(tx(common.kwarg(c, "relative")) == "relative" for c in (c1, c2, c3)) \
-                and len({tx(common.kwarg(c, "reference")) for c in (c1, c2, c3)}) == 1 and common.kwarg(c1, "reference") is not None
-        R.ob("S-wrap", "_add_error_to_fit_generic", ok, (f.file, f.lineno), "the generic helper must forward correlated errors as fully correlated simple errors, 2-d arrays as covariance matrices, else simple errors - each with the relative flag")
-    xf = wm.functions["xy_fit"]
-    src = common.src_of(xf.node)
-    ok = "_fit.add_error(axis, _err, correlation=1.0, relative=relative, reference=_reference)" in src and "_fit.add_matrix_error(axis, error, 'cov', relative=relative, reference=_reference)" in src \
-        and "_fit.add_error(axis, error, relative=relative, reference=_reference)" in src
-    R.ob("S-wrap", "xy_fit._add_error_to_fit", ok, (xf.file, xf.lineno), "the xy helper must forward axis, the relative flag and the reference to add_error / add_matrix_error")
+                and len({tx(common.kwarg(c, "reference")) for c in (c1, c2, c3)}) == 1 and common.kwarg(c1, "reference") is not None \
+                and (off == 0 or all(tx(common.kwarg(c, "axis", 0)) == "axis" for c in (c1, c2, c3)))
+        R.ob("S-wrap", label, ok, (where_.file, where_.lineno),
+             "the helper must forward correlated errors as fully correlated simple errors, 2-d arrays as covariance matrices, else simple errors - each with the relative flag, the reference "
+             "(and the axis for xy fits)")
 
     # ---- wrapper configuration order: values given with `fixed` survive (the bulk start-value setter writes every parameter, fixed ones included)
     R.rule("S-order", "the generic wrapper sets the start values before it fixes parameters (fix_parameter(name, value) sets the value; a later set_all_parameter_values overwrites it), "
